@@ -30,4 +30,9 @@ TEXTS["C05"] = {
     "note": "Real pintracker/stateless and optracker from /repo; the IPFS daemon is a model behind the IPFSConnector RPC service, the shared pinset a real dsstate. Trusts the model daemon's pin semantics (DESIGN C05).",
     "technique": "model-based stateful property testing with harness-controlled completion order and fault injection (rapid state machine)",
 }
+TEXTS["C06"] = {
+    "level": "Generated-input search: pinsets, daemon pin tables and last-operation outcomes (produced by really running operations against a scripted daemon) are constructed directly on a real stateless tracker; for every CID the per-CID status, the listing entry and the facts must agree at class level, and for generated filters (single, composite, unions) the filtered listing must equal the unfiltered one restricted to the filter. A second leg judges the cluster-wide view of real Cluster instances over generated member sets. Exploration level.",
+    "note": "Real Status/StatusAll/localStatus/TrackerStatus.Match and globalPinInfo code from /repo; the daemon is the model behind the IPFSConnector RPC service. Oracle decisions (class-level agreement, mode-mismatch entries) are listed in the evidence assumptions.",
+    "technique": "property-based testing with a truth-table oracle and a metamorphic filter law (rapid)",
+}
 PENDING = {}
